@@ -61,14 +61,16 @@ Allowed(fmt, slot, c) ==
 Reserved(fmt) == IF fmt \in {"latex", "beamer", "memoir"} THEN {"\\", "{", "}", "$", "%", "&", "#", "_", "^", "~"} ELSE {"&", "<", ">", "\""}
 
 \* ---- block documents with numbered words ----------------------------------------------------------------------------
-Kinds == {"para", "heading", "h1", "h3", "h4", "list", "quote", "table", "note", "nested", "code", "codel", "link", "emph"}
-Need(k) == IF k \in {"list", "table", "nested"} THEN 2 ELSE 1            \* words a block shows
+Kinds == {"para", "heading", "h1", "h3", "h4", "list", "quote", "table", "note", "nested", "code", "codel", "link", "emph", "tspan"}
+Need(k) == IF k \in {"list", "table", "nested", "tspan"} THEN 2 ELSE 1            \* words a block shows
 RECURSIVE Wd(_), BlockSrc(_, _), DocSrc(_, _), WordsOf(_, _, _), NoteWords(_, _)
 Wd(i) == "W" \o ToString(i) \o "W"
 BlockSrc(k, n) ==
   CASE k = "para" -> Wd(n) \o " text\n\n" [] k = "heading" -> "## " \o Wd(n) \o "\n\n" [] k = "h1" -> "# " \o Wd(n) \o "\n\n" [] k = "h3" -> "### " \o Wd(n) \o "\n\n" [] k = "h4" -> "#### " \o Wd(n) \o "\n\n"
     [] k = "nested" -> "call[^f" \o ToString(n) \o "] after\n\n[^f" \o ToString(n) \o "]: " \o Wd(n) \o " inner[^g" \o ToString(n) \o "]\n\n[^g" \o ToString(n) \o "]: " \o Wd(n + 1) \o "\n\n" [] k = "list" -> "* " \o Wd(n) \o "\n* " \o Wd(n + 1) \o "\n\n"
     [] k = "quote" -> "> " \o Wd(n) \o "\n\n" [] k = "table" -> "| " \o Wd(n) \o " |\n|---|\n| " \o Wd(n + 1) \o " |\n\n"
+    [] k = "tspan" -> "| h | i | j |\n|---|---|---|\n| " \o Wd(n) \o " || " \o Wd(n + 1) \o " |\n\n"            \* a cell spanning two columns, followed by another cell
+    [] k = "tspan" -> "| h | i | j |\n|---|---|---|\n| " \o Wd(n) \o " || " \o Wd(n + 1) \o " |\n\n"            \* a cell spanning two columns, followed by another cell
     [] k = "note" -> "call[^f" \o ToString(n) \o "] after\n\n[^f" \o ToString(n) \o "]: " \o Wd(n) \o "\n\n" [] k = "code" -> "```\n" \o Wd(n) \o "\n```\n\n" [] k = "codel" -> "```python\n" \o Wd(n) \o "\n```\n\n"
     [] k = "link" -> "[" \o Wd(n) \o "](http://u.rl/)\n\n" [] OTHER -> "*" \o Wd(n) \o "* plain\n\n"
 DocSrc(ks, n) == IF ks = <<>> THEN "" ELSE BlockSrc(Head(ks), n) \o DocSrc(Tail(ks), n + Need(Head(ks)))
@@ -94,7 +96,7 @@ VARIABLE g
 Pick(S) == IF Sim THEN {RandomElement(S)} ELSE S
 Init == IF Mode = "esc" THEN g \in {[si |-> s, ci |-> c] : s \in 1 .. Len(Slots), c \in 1 .. Len(Chars)} ELSE g = <<>>
 \* a bracketed line right after a table is its caption (and HTML must put a caption first): not a plain link paragraph
-Next == Mode = "blocks" /\ Len(g) < MaxBlocks /\ \E k \in Pick(Kinds) : ~(k = "link" /\ g # <<>> /\ g[Len(g)] = "table") /\ g' = Append(g, k)
+Next == Mode = "blocks" /\ Len(g) < MaxBlocks /\ \E k \in Pick(Kinds) : ~(k = "link" /\ g # <<>> /\ g[Len(g)] \in {"table", "tspan"}) /\ g' = Append(g, k)
 Emit == IF Mode = "esc" THEN PrintT(ToJson([si |-> g.si, ci |-> g.ci, slot |-> Slots[g.si].n, ch |-> Chars[g.ci].c, chname |-> Chars[g.ci].n, src |-> DocOf(g.si, g.ci), base |-> DocOf(g.si, Len(Chars))]))
         ELSE (Len(g) >= 1 => PrintT(ToJson([ks |-> g, src |-> DocSrc(g, 1)])))
 \* laws: escaped forms never contain the raw reserved character of the target (except where the target does not reserve it)
